@@ -86,6 +86,8 @@ pub struct Board {
     pub next_chan_tag: u64,
     /// Tags of channel ends that some application has already bound.
     pub bound: std::collections::BTreeSet<(u64, bool)>,
+    /// Per call id: (set once the caller has dropped its PendingReply, caller's protocol minor).
+    pub call_abort_flags: BTreeMap<u64, (Rc<Cell<bool>>, u32)>,
 }
 
 pub type SharedBoard = Rc<RefCell<Board>>;
@@ -188,6 +190,8 @@ pub struct TaskInfo {
     pub blocked: Cell<Option<(&'static str, bool)>>,
     /// The blocking operation must complete once this flag is set (e.g. the peer has claimed).
     pub dyn_must: RefCell<Option<Rc<Cell<bool>>>>,
+    /// ... unless this flag is set (e.g. the service the operation depends on is gone).
+    pub dyn_unless: RefCell<Option<Rc<Cell<bool>>>>,
     pub done: Cell<bool>,
 }
 
@@ -206,6 +210,8 @@ pub type Spawner = Rc<RefCell<Vec<(String, Rc<TaskInfo>, Pin<Box<dyn Future<Outp
 #[derive(Clone)]
 pub struct Ctx {
     pub client: usize,
+    /// Negotiated protocol minor version of this client.
+    pub minor: u32,
     pub res: SharedRes,
     pub bb: SharedBoard,
     pub log: SharedLog,
@@ -341,6 +347,7 @@ impl Ctx {
             client: self.client,
             blocked: Cell::new(None),
             dyn_must: RefCell::new(None),
+            dyn_unless: RefCell::new(None),
             done: Cell::new(false),
         });
         let _ = must_finish;
@@ -368,7 +375,16 @@ pub async fn blocked<F: Future>(info: &TaskInfo, what: &'static str, must: bool,
 /// The server task of one service: answers every call immediately according to the policy encoded in
 /// its arguments, and executes commands from the owning application.
 async fn server_task(ctx: Ctx, mut svc: Service, mut cmd: mpsc::UnboundedReceiver<SvcCmd>, info: Rc<TaskInfo>) {
-    let mut held = Vec::new();
+    let held: Vec<aldrin::low_level::Promise> = Vec::new();
+    // Set when this service goes away: calls held by sub-tasks can then no longer be aborted.
+    let gone = Rc::new(Cell::new(false));
+    struct SetOnDrop(Rc<Cell<bool>>);
+    impl Drop for SetOnDrop {
+        fn drop(&mut self) {
+            self.0.set(true);
+        }
+    }
+    let _guard = SetOnDrop(gone.clone());
     loop {
         enum Ev {
             Call(Option<aldrin::low_level::Call>),
@@ -393,6 +409,7 @@ async fn server_task(ctx: Ctx, mut svc: Service, mut cmd: mpsc::UnboundedReceive
                 }
             }
             Ev::Cmd(Some(SvcCmd::Destroy)) => {
+                gone.set(true);
                 let r = blocked(&info, "Service::destroy", true, svc.destroy()).await;
                 if let Err(e) = r {
                     ctx.check_err("Service::destroy", &e);
@@ -433,8 +450,19 @@ async fn server_task(ctx: Ctx, mut svc: Service, mut cmd: mpsc::UnboundedReceive
                     }
                     6 => call.invalid_function(),
                     _ => {
-                        held.push(call.into_promise());
+                        // Hold the promise: a sub-task waits for the caller's abort.
+                        let mut promise = call.into_promise();
                         ctx.probe("promise-held-until-teardown");
+                        let c2 = ctx.clone();
+                        let holder: Rc<RefCell<Option<Rc<TaskInfo>>>> = Rc::new(RefCell::new(None));
+                        let h2 = holder.clone();
+                        let ti = ctx.spawn(format!("client{}-held-promise", ctx.client), false, async move {
+                            let info = h2.borrow().clone().unwrap();
+                            blocked(&info, "Promise::aborted", false, promise.aborted()).await;
+                            c2.probe("held-promise-aborted");
+                            drop(promise);
+                        });
+                        *holder.borrow_mut() = Some(ti);
                         Ok(())
                     }
                 };
@@ -450,6 +478,20 @@ pub async fn producer_task(ctx: Ctx, mut sender: Sender, tag: u64, n: u32, close
     ctx.log.borrow_mut().produced.entry(tag).or_default();
     for i in 0..n as u64 {
         let item = (tag << 20) | i;
+        // A slow producer: the consumer keeps up, so credit is announced while the sender still has
+        // some left.
+        for _ in 0..((close_mode >> 5) % 4) * 2 {
+            yield_once().await;
+        }
+        if (close_mode >> 4) % 2 == 1 {
+            // Applications watch for the receiver going away while they produce (e.g. in a select).
+            let closed = std::future::poll_fn(|cx| Poll::Ready(sender.poll_receiver_closed(cx).is_ready())).await;
+            if closed {
+                ctx.probe("receiver-closed-noticed-by-sender");
+            } else {
+                ctx.probe("receiver-closed-polled-while-open");
+            }
+        }
         let r = blocked(&info, "Sender::send_item", must, sender.send_item(item)).await;
         match r {
             Ok(()) => {
@@ -670,16 +712,20 @@ async fn run_op(ctx: &Ctx, op: AOp, info: &Rc<TaskInfo>) {
             if let Some((i, p)) = taken {
                 let id = ctx.unique();
                 let policy = (op.b % 8) as u64;
+                let flag = Rc::new(Cell::new(false));
+                ctx.bb.borrow_mut().call_abort_flags.insert(id, (flag.clone(), ctx.minor));
                 let pending = p.call(op.c % 5, vec![id, policy], None);
                 ctx.res.borrow_mut().proxies[i] = Some(p);
                 match op.d % 6 {
                     0 => {
                         drop(pending);
+                        flag.set(true);
                         ctx.probe("call-dropped-at-once");
                     }
                     1 => {
                         let r = CancelAfter::new(pending, 1 + (op.d >> 4) % 3).await;
                         if r.is_none() {
+                            flag.set(true);
                             ctx.probe("call-cancelled-mid-flight");
                         } else if let Some(Ok(reply)) = r {
                             check_reply(ctx, id, policy, reply);
